@@ -8,7 +8,8 @@ independent Go visibility/import oracle.
 """
 import os
 
-THEOREMS = ["IstioModel.C07.HostTheorems", "IstioModel.C07.VisTheorems", "IstioModel.C07.ScopeTheorems"]
+THEOREMS = ["IstioModel.C07.HostTheorems", "IstioModel.C07.VisTheorems", "IstioModel.C07.ScopeTheorems",
+            "IstioModel.C07.RuleTheorems"]
 STREAMS = [("host", 3000, 60000), ("vis", 1500, 30000), ("scope", 3000, 60000)]
 
 
